@@ -605,6 +605,99 @@ theorem writeAll_interrupted (s : List Resp) (acc buf : Bytes) :
   | cons b buf => left; simp [writeAll]
 
 
+/-! ### sessions of a state-tracking writer -/
+
+theorem runCalls_eq (s : List Resp) (acc : Bytes) (cs : List Call) :
+    ((runCalls s acc cs).2.1, (runCalls s acc cs).2.2) = runWriter s acc cs := by
+  induction cs generalizing s acc with
+  | nil => rfl
+  | cons c cs ih =>
+    cases c with
+    | write bs =>
+      simp only [runCalls, runWriter]
+      generalize writeAll s acc bs = w
+      obtain ⟨s', acc', ok⟩ := w
+      cases ok
+      · rfl
+      · exact ih s' acc'
+    | flush =>
+      simp only [runCalls, runWriter]
+      generalize flushCall s = w
+      obtain ⟨s', ok⟩ := w
+      cases ok
+      · rfl
+      · exact ih s' acc
+
+theorem apiCall_poisoned (st : WState) (cs : List Call) (h : st.poisoned = true) :
+    (apiCall st cs).1.poisoned = true ∧ (apiCall st cs).2 = false := by
+  simp [apiCall, h]
+
+theorem apiCall_false (st : WState) (cs : List Call) (h : (apiCall st cs).2 = false) :
+    (apiCall st cs).1.poisoned = true := by
+  unfold apiCall at h ⊢
+  by_cases hp : st.poisoned = true
+  · simp [hp]
+  · simp only [hp] at h ⊢
+    generalize runCalls st.sched st.acc cs = w at h ⊢
+    obtain ⟨s', acc', ok⟩ := w
+    simp at h ⊢
+    exact h
+
+theorem apiSeq_poisoned (st : WState) (ops : List (List Call)) (h : st.poisoned = true) :
+    ∀ b ∈ (apiSeq st ops).2, b = false := by
+  induction ops generalizing st with
+  | nil => simp [apiSeq]
+  | cons c cs ih =>
+    obtain ⟨h1, h2⟩ := apiCall_poisoned st c h
+    intro b hb
+    simp only [apiSeq, List.mem_cons] at hb
+    rcases hb with rfl | hb
+    · exact h2
+    · exact ih _ h1 b hb
+
+theorem apiSeq_false_poisons (st : WState) (ops : List (List Call))
+    (h : false ∈ (apiSeq st ops).2) : (apiSeq st ops).1.poisoned = true := by
+  induction ops generalizing st with
+  | nil => simp [apiSeq] at h
+  | cons c cs ih =>
+    simp only [apiSeq, List.mem_cons] at h ⊢
+    rcases h with h | h
+    · have hp := apiCall_false st c h.symm
+      -- poisoned stays poisoned through the rest
+      clear ih h
+      generalize (apiCall st c).1 = st1 at hp
+      induction cs generalizing st1 with
+      | nil => simpa [apiSeq] using hp
+      | cons d ds ih2 => simp only [apiSeq]; exact ih2 _ (apiCall_poisoned st1 d hp).1
+    · exact ih _ h
+
+theorem apiSeq_append (st : WState) (l1 l2 : List (List Call)) :
+    apiSeq st (l1 ++ l2) =
+      ((apiSeq (apiSeq st l1).1 l2).1, (apiSeq st l1).2 ++ (apiSeq (apiSeq st l1).1 l2).2) := by
+  induction l1 generalizing st with
+  | nil => simp [apiSeq]
+  | cons c cs ih => simp only [List.cons_append, apiSeq, ih, List.cons_append]
+
+theorem output_append (a b : List Call) : output (a ++ b) = output a ++ output b := by
+  induction a with
+  | nil => rfl
+  | cons c cs ih => cases c <;> simp [output, ih]
+
+theorem apiCall_spec (st : WState) (cs : List Call) :
+    ∃ t, (apiCall st cs).1.acc = st.acc ++ t ∧ t <+: output cs ∧ ((apiCall st cs).2 = true → t = output cs) := by
+  unfold apiCall
+  by_cases hp : st.poisoned = true
+  · simp only [hp, if_true]
+    exact ⟨[], by simp, List.nil_prefix, fun h => by simp at h⟩
+  · simp only [hp]
+    have e := runCalls_eq st.sched st.acc cs
+    obtain ⟨t, h1, h2, h3⟩ := runWriter_spec cs st.sched st.acc
+    rw [← e] at h1 h3
+    generalize runCalls st.sched st.acc cs = w at h1 h3 ⊢
+    obtain ⟨s', acc', ok⟩ := w
+    exact ⟨t, h1, h2, h3⟩
+
+
 /-! ## (d) record framing -/
 section Records
 variable {σ : Type}
